@@ -2,6 +2,34 @@
 """Generates MANIFEST.json from the table below (so it stays valid and consistent)."""
 import json, sys
 claimed = {
+ "C06": ("exploration", "4 C06",
+   "Seeded deterministic simulation of dynamic-scope worlds: two chains of 0-3 schema resources (embedded or Loader-supplied, each with $dynamicAnchor / $anchor / nothing, entered through $ref, fragment-less $dynamicRef or in-place applicators) ending in one $dynamicRef in fragment, resource-relative or pointer form; a history of 6-16 Validate calls on ONE Resolved alternates between the chains with right, wrong and missing markers; 4 map-order schedules. Every verdict is compared with a 6-line outermost-first model and, on disagreement, with a freshly resolved copy to tell a topology error from a scope leak. Decides the histories clause and the Loader-layout clause; the purely topological single-document clause is a by-product.",
+   "Model written from 2020-12 core 8.2.3.2 (fallback to the initial target when no resource in scope declares the anchor). Intermediate hops are lexical. Cross-document references address document roots only (per-document $id tables are a documented limitation of the library).",
+   "deterministic simulation: simulated Loader layouts x call histories on one Resolved x seeded map-order schedules, by-construction dynamic-scope model"),
+ "C10": ("fault_enumeration", "4 C10",
+   "Seeded deterministic simulation of Resolve/Validate/ApplyDefaults against an adversarial simulated Loader: per universe, for every call index and every behaviour in {error, (nil,nil), root document again, wrong document, same *Schema pointer again}, every single failing document, documents that fail the resolver's checks and a 60-deep document chain; each operation runs under recover and a step budget (a hang is detected deterministically by counting yields). The same oracle wraps every operation of the other eight simulated workloads, which this check also runs. Decides the fault-sequence clause; robustness on arbitrary bytes / Schema graphs / Go representations / types is a pure function of the input and is not claimed.",
+   "A hang is a step-budget overrun (4*10^5 yields; the largest legitimate operation uses about 10^5). Instances are canonical encoding/json values held through a pointer.",
+   "deterministic simulation: enumerated loader fault behaviours per call index + step-budget hang detector + recover around every simulated operation"),
+ "C12": ("exploration", "4 C12",
+   "Seeded deterministic simulation of the per-call hash seed and of what it stands for: arrays with planted equal-but-not-identical duplicates at every pair of positions, enum and const checks, each validated under 8 (quick) / 24 (thorough) configurations of hash seed x collision mask (64/2/1/0 bits kept, forcing the equality fallback) x map order; verdict = pairwise Equal definition in every configuration; plus the hash law Equal(x,y) => same digest under one seed with independent map orders, through the generated hashValue helper. Decides the configuration clause.",
+   "Equal is the definition (C11 not claimed). Values behind pointers and typed containers are not generated. purego maphash makes a seed a replayable decision.",
+   "deterministic simulation: hash seed and forced collisions as injected faults, map-order schedules; definition oracle via public Equal; hash-law check via generated helper"),
+ "C13": ("exploration", "4 C13",
+   "Seeded deterministic simulation of k=2..6 virtual goroutines x <=4 operations over shared Resolved values, Schema trees, instances and ForOptions, in a plain build (8000 runs quick) and a -race build (1600 runs quick): a seeded scheduler decides who runs at every operation boundary and plants pre-emptions inside operations; token hand-off is invisible to the race detector so the library's own unsynchronised accesses are reported; memo-table misses are injected and caches start cold or warm. Oracles: no race report inside the library; every result equals the sequential reference computed on an independently built identical world; a sequential re-run after the join still matches.",
+   "Race detector shadow memory is finite; sync.Pool/GC timing and library-spawned goroutines are outside the seam. Loader results are owned by the calling Resolve.",
+   "deterministic simulation: seeded virtual-goroutine scheduler (PCT-style pre-emption) + Go race detector + sequential-equivalence oracle"),
+ "C15": ("exploration", "4 C15",
+   "Seeded deterministic simulation of ApplyDefaults as the one stateful operation: histories of 4-10 steps (apply R_j, apply again, client deletes/sets/replaces, client mutates a container an earlier application inserted, switch instance, Validate) over 1-3 schemas with defaults at depth <=3 and two instances, repeated under 4 map-order schedules. A relational checker written from the property text decides each application (present values untouched, only non-required declared properties inserted, value = declared default completed legitimately or a container holding >=1 declared default), plus idempotence, schedule independence, and the ValidateDefaults clause against per-subschema validation.",
+   "The checker demands legitimacy of what is inserted, not completeness. Canonical JSON instances held in an any through a pointer; typed holders not generated.",
+   "deterministic simulation: call/mutation histories x seeded map-order schedules, relational before/after checker as oracle"),
+ "C16": ("exploration", "4 C16",
+   "Seeded deterministic simulation of For/ForType as a function with package-level state: per run one type (44-type corpus or reflect.StructOf) x options (TypeSchemas, IgnoreInvalidTypes) x a history of repeated calls, calls for other types, client assignments to earlier results, under map-order schedules and, as separate process batches, both JSONSCHEMAGODEBUG settings. Oracles: byte-identical marshaled result on every repetition, no *Schema shared between results or with TypeSchemas, Resolve accepts every result, recursive types error within the step budget, unsupported kinds error or are dropped. Decides the history/configuration/schedule clauses; agreement with encoding/json per tag string is a pure function of the type and not claimed.",
+   "Client mutations are field assignments and schema-map insertions only (non-schema slices/maps of TypeSchemas entries are documented as shared).",
+   "deterministic simulation: call/mutation histories x process configurations x seeded map-order schedules, pointer-disjointness and byte-equality oracles"),
+ "C19": ("exploration", "4 C19",
+   "Seeded deterministic simulation of Marshal under every map order: generated Schema values (nested PropertyOrder lists: permutations, subsets, supersets, absent names, duplicates; Extra; draft-07 dependencies union; inferred trees) marshaled >=4 times under the canonical schedule and 5 (quick) / 13 (thorough) further schedules; bytes identical across repetitions and schedules; on the token stream the keys of every properties object are [listed-that-exist in list order] ++ [rest ascending]; any duplicate makes Marshal fail under every schedule.",
+   "Expected key order comes from a 10-line model of the property text. Bytes compared per entry point.",
+   "deterministic simulation: every map iteration behind a seeded seam, repeated marshaling under many schedules, token-stream order oracle"),
  "C03": ("fault_enumeration", "4 C03",
    "Seeded deterministic simulation of the real resolver and evaluator against a simulated document store (Loader): per generated universe every reachable reference is probed with right and wrong markers, every subset of failing documents and every 'k-th call fails' plan is enumerated, recovery after each failure is checked, and all of it is repeated under 4 map-order schedules. Worlds are sampled (seeded search), fault sets per world are enumerated. Right level because the property quantifies over inputs x configurations x fault sequences of the library's only I/O seam.",
    "Trusts net/url for RFC 3986 resolution and the by-construction model (reference text derived from its target). Cross-document references address document roots; pointer fragments do not cross embedded resources; error text is never compared.",
